@@ -54,6 +54,17 @@ type turnScript struct {
 	noSilence bool
 	// dropBindings: that many Binding requests are not answered (lost)
 	dropBindings int
+	// dup > 0: every response is delivered a second time that much later (a duplicating network);
+	// allocDelay holds the Allocate success back (so that the duplicate of the 401 overtakes it)
+	dup, allocDelay time.Duration
+}
+
+// send delivers a response (and, on a duplicating network, its late twin).
+func (ts *turnScript) send(s *sim.ScriptedServer, to *net.UDPAddr, raw []byte, d time.Duration) {
+	s.Send(to, raw, d)
+	if ts.dup > 0 {
+		s.Send(to, raw, d+ts.dup)
+	}
 }
 
 func (ts *turnScript) draw(w [5]int) int {
@@ -101,10 +112,10 @@ func (ts *turnScript) handler(s *sim.ScriptedServer, from *net.UDPAddr, ev sim.S
 		}
 		b := wire.NewBuilder(wire.MethodBinding, wire.ClassSuccess, m.TID)
 		b.AddXorAddr(wire.AttrXORMappedAddress, from.IP, from.Port)
-		s.Send(from, b.Bytes(), 0)
+		ts.send(s, from, b.Bytes(), 0)
 	case wire.MethodAllocate:
 		if !hasMI {
-			s.Send(from, errResp(m.Method, m.TID, 401, ts.nonce), 0)
+			ts.send(s, from, errResp(m.Method, m.TID, 401, ts.nonce), 0)
 
 			return
 		}
@@ -112,12 +123,12 @@ func (ts *turnScript) handler(s *sim.ScriptedServer, from *net.UDPAddr, ev sim.S
 		b.AddXorAddr(wire.AttrXORRelayedAddress, ts.relay.IP, ts.relay.Port)
 		b.AddU32(wire.AttrLifetime, 600)
 		b.AddXorAddr(wire.AttrXORMappedAddress, from.IP, from.Port)
-		s.Send(from, b.Bytes(), 0)
+		ts.send(s, from, b.Bytes(), ts.allocDelay)
 	case wire.MethodRefresh:
 		b := wire.NewBuilder(wire.MethodRefresh, wire.ClassSuccess, m.TID)
 		lt, _ := m.Lifetime()
 		b.AddU32(wire.AttrLifetime, lt)
-		s.Send(from, b.Bytes(), 0)
+		ts.send(s, from, b.Bytes(), 0)
 	case wire.MethodCreatePermission, wire.MethodChannelBind:
 		w := ts.permW
 		if m.Method == wire.MethodChannelBind {
@@ -143,15 +154,15 @@ func (ts *turnScript) handler(s *sim.ScriptedServer, from *net.UDPAddr, ev sim.S
 			if m.Method == wire.MethodCreatePermission {
 				d = ts.permDelay
 			}
-			s.Send(from, wire.NewBuilder(m.Method, wire.ClassSuccess, m.TID).Bytes(), d)
+			ts.send(s, from, wire.NewBuilder(m.Method, wire.ClassSuccess, m.TID).Bytes(), d)
 		case 1:
-			s.Send(from, errResp(m.Method, m.TID, 400, ""), 0)
+			ts.send(s, from, errResp(m.Method, m.TID, 400, ""), 0)
 		case 2:
-			s.Send(from, errResp(m.Method, m.TID, 403, ""), 0)
+			ts.send(s, from, errResp(m.Method, m.TID, 403, ""), 0)
 		case 3:
 			ts.nonceCtr++
 			ts.nonce = fmt.Sprintf("nonce-%d", ts.nonceCtr)
-			s.Send(from, errResp(m.Method, m.TID, 438, ts.nonce), 0)
+			ts.send(s, from, errResp(m.Method, m.TID, 438, ts.nonce), 0)
 		case 4: // silence: the client retransmits and eventually gives up
 		}
 	}
@@ -525,6 +536,16 @@ func (x *c13) runUDP(tier string, caseNo int) {
 				x.liveness("after-burst")
 				x.drainAndCompare()
 				x.rec.FP("inbound/burst-1100")
+			} else {
+				// the application asks for a permission itself (Client.CreatePermission, the public
+				// call) - the server may refuse - and writes to that peer afterwards: the refusal
+				// authorises nothing
+				i := rng.Intn(npeers)
+				err := x.rc.Client.CreatePermission(x.peers[i])
+				x.rec.FP("explicit-createpermission/err=%v", errClass(err))
+				x.settle()
+				werr := write(i)
+				x.rec.FP("explicit-createpermission/then-writeto/err=%v", errClass(werr))
 			}
 		}
 		x.settle()
